@@ -484,6 +484,22 @@ func writePairFile(p string, w int, AP alignPair, cErr chan error, omitRef bool)
 	f.Close()
 }
 
+// checkReferenceLength makes sure that the reference sequence the alignments are laid out against is as
+// long as the SAM header says the reference they were made against is: the CIGARs index into it. (A stream
+// without @SQ lines declares no length, and there is nothing to compare.)
+func checkReferenceLength(header biogosam.Header, refLen int) error {
+	refs := header.Refs()
+	if len(refs) == 0 {
+		return nil
+	}
+	for _, r := range refs {
+		if r.Len() == refLen {
+			return nil
+		}
+	}
+	return errors.New("the reference sequence is not the same length as the reference in the SAM header (@SQ LN): is it the sequence the reads were aligned to?")
+}
+
 // ToPairAlign converts a SAM file containing pairwise alignments between assembled genomes into pairwise fasta-format alignments,
 // optionally including the reference sequence and insertions relative to it, optionally trimmed to coordinates in (degapped-)reference space
 func ToPairAlign(samIn, ref io.Reader, outpath string, wrap int, trimStart int, trimEnd int, omitRef bool, omitIns bool, threads int) error {
@@ -529,7 +545,10 @@ func ToPairAlign(samIn, ref io.Reader, outpath string, wrap int, trimStart int, 
 	// the reader reports a stream it can't parse (e.g. an empty one) on the
 	// error channel instead of sending a header
 	select {
-	case <-cSH:
+	case header := <-cSH:
+		if err := checkReferenceLength(header, len(refSeq)); err != nil {
+			return err
+		}
 	case err := <-cErr:
 		return err
 	}
